@@ -813,7 +813,7 @@ def concrete_index(ex, idx, n):
     return k
 
 
-@summary("<Vec as Index>::index", "<Vec as IndexMut>::index_mut", "core::slice::index", "<[T] as Index>::index")
+@summary("<Vec as Index>::index", "<Vec as IndexMut>::index_mut", "core::slice::index", "<[T] as Index>::index", "<* as Index>::index", "<* as IndexMut>::index_mut")
 def _vec_index(ex, c):
     base = c.args[0]
     while isinstance(base, Ref) and isinstance(ex.load(base), Ref):
@@ -827,6 +827,20 @@ def _vec_index(ex, c):
         if st.as_long() > len(seq.items):
             raise Panic("range start out of bounds")
         return Ref(Cell(Seq(seq.items[st.as_long():], "slice")))     # read-only view sharing the element objects
+    if isinstance(idx, Adt) and base_type_name(idx.ty) == "RangeTo":
+        en = z3.simplify(idx.fields[0].t)
+        if not z3.is_bv_value(en):
+            raise Unsupported("symbolic range end")
+        if en.as_long() > len(seq.items):
+            raise Panic("range end out of bounds")
+        return Ref(Cell(Seq(seq.items[:en.as_long()], "slice")))
+    if isinstance(idx, Adt) and base_type_name(idx.ty) == "Range":
+        a, b = z3.simplify(idx.fields[0].t), z3.simplify(idx.fields[1].t)
+        if not (z3.is_bv_value(a) and z3.is_bv_value(b)):
+            raise Unsupported("symbolic range")
+        if a.as_long() > b.as_long() or b.as_long() > len(seq.items):
+            raise Panic("range out of bounds")
+        return Ref(Cell(Seq(seq.items[a.as_long():b.as_long()], "slice")))
     if isinstance(idx, BV):
         k = concrete_index(ex, idx, len(seq.items))
         if k >= len(seq.items):
@@ -1043,3 +1057,241 @@ def _dyn_serialise(ex, c):
     if len(cands) != 1:
         raise Unsupported(f"Serialise impl for {want}: {[f.name for f in cands]}")
     return ex.call_fn(cands[0], c.args)
+
+
+# ------------------------------------------------------------------ byte vectors / linked lists (DNS codec)
+def base_seq_ref(ex, r):
+    while isinstance(r, Ref) and isinstance(ex.load(r), Ref):
+        r = ex.load(r)
+    return r
+
+
+@summary("Vec::is_empty", "core::slice::is_empty", "LinkedList::is_empty")
+def _is_empty(ex, c):
+    return Bool(len(deref(ex, c.args[0]).items) == 0)
+
+
+@summary("Vec::extend_from_slice")
+def _extend_from_slice(ex, c):
+    deref(ex, c.args[0]).items.extend(deref(ex, c.args[1]).items)
+    return UNIT
+
+
+@summary("<Vec as Extend>::extend", "Vec::extend")
+def _extend(ex, c):
+    src = c.args[1]
+    items = src.items if isinstance(src, Opaque) else deref(ex, src).items
+    deref(ex, c.args[0]).items.extend([deref1(ex, x) if isinstance(x, Ref) else x for x in items])
+    return UNIT
+
+
+@summary("Vec::truncate")
+def _truncate(ex, c):
+    n = z3.simplify(c.args[1].t)
+    if not z3.is_bv_value(n):
+        raise Unsupported("truncate to a symbolic length")
+    v = deref(ex, c.args[0])
+    del v.items[n.as_long():]
+    return UNIT
+
+
+@summary("Vec::splice")
+def _splice(ex, c):
+    v = deref(ex, c.args[0])
+    rng = c.args[1]
+    a, b = z3.simplify(rng.fields[0].t), z3.simplify(rng.fields[1].t)
+    if not (z3.is_bv_value(a) and z3.is_bv_value(b)):
+        raise Unsupported("splice with a symbolic range")
+    a, b = a.as_long(), b.as_long()
+    if a > b or b > len(v.items):
+        raise Panic("splice range out of bounds")
+    src = c.args[2]
+    new = [deref1(ex, x) if isinstance(x, Ref) else x for x in (src.items if isinstance(src, Opaque) else deref(ex, src).items)]
+    removed = v.items[a:b]
+    v.items[a:b] = new
+    return Opaque("Splice", items=removed)
+
+
+@summary("LinkedList::new", "<LinkedList as Default>::default")
+def _ll_new(ex, c):
+    return Seq([], "list")
+
+
+@summary("LinkedList::push_back")
+def _ll_push(ex, c):
+    deref(ex, c.args[0]).items.append(c.args[1])
+    return UNIT
+
+
+@summary("<LinkedList as IntoIterator>::into_iter", "LinkedList::iter_mut", "LinkedList::iter")
+def _ll_iter(ex, c):
+    base = base_seq_ref(ex, c.args[0])
+    seq = ex.load(base)
+    return Opaque("Iter", items=[Ref(base.cell, base.path + (("i", i),)) for i in range(len(seq.items))])
+
+
+@summary("<Vec as PartialEq>::eq", "<[T] as PartialEq>::eq", "core::slice::cmp::eq")
+def _vec_eq(ex, c):
+    a, b = deref(ex, c.args[0]), deref(ex, c.args[1])
+    if len(a.items) != len(b.items):
+        return Bool(False)
+    if not a.items:
+        return Bool(True)
+    if all(isinstance(x, BV) for x in a.items + b.items):
+        return Bool(z3.And([x.t == y.t for x, y in zip(a.items, b.items)]))
+    raise Unsupported("Vec equality on non-integer elements")
+
+
+@summary("<u16 as TryFrom>::try_from")
+def _u16_try_from(ex, c):
+    v = c.args[0]
+    if ex.branch(z3.ULE(v.t, z3.BitVecVal(0xFFFF, v.width))):
+        return ok(BV(z3.Extract(15, 0, v.t)))
+    return err(Opaque("TryFromIntError"))
+
+
+@summary("<u8 as From>::from")
+def _u8_from(ex, c):
+    v = c.args[0]
+    if isinstance(v, Bool):
+        return BV(z3.If(v.t, z3.BitVecVal(1, 8), z3.BitVecVal(0, 8)))
+    return BV(z3.Extract(7, 0, v.t)) if v.width > 8 else v
+
+
+@summary("panic", "core::panicking::panic", "core::panicking::assert_failed", "core::panicking::panic_fmt", "std::rt::begin_panic")
+def _panic(ex, c):
+    msg = c.args[0].text if c.args and isinstance(c.args[0], Str) else "explicit panic / assertion"
+    raise Panic(str(msg))
+
+
+@summary("<* as Iterator>::for_each")
+def _for_each(ex, c):
+    it, f = c.args
+    for x in list(it.items):
+        ex.call_callable(f, [x])
+    return UNIT
+
+
+@summary("Option::unwrap_or_default")
+def _opt_unwrap_or_default2(ex, c):
+    o = c.args[0]
+    if o.variant == "Some":
+        return o.fields[0]
+    ty = (c.dest_ty or "")
+    if "EdnsData" in ty or "EdnsData" in c.path:
+        return Adt("EdnsData", None, [Seq([])])
+    raise Unsupported("unwrap_or_default on None of " + ty)
+
+
+
+
+
+def _int_default(ex, c):
+    m = re.match(r"^<(\w+) as", c.path)
+    return bv_const(0, m.group(1))
+
+
+for _t in INT_TYPES:
+    S[f"<{_t} as Default>::default"] = _int_default
+
+
+# ------------------------------------------------------------------ more Option / Vec / slice combinators (DNS parser)
+@summary("Option::is_some_and")
+def _is_some_and(ex, c):
+    o, f = c.args
+    if o.variant == "None":
+        return Bool(False)
+    return ex.call_callable(f, [o.fields[0]])
+
+
+@summary("Option::map_or")
+def _map_or(ex, c):
+    o, d, f = c.args
+    return d if o.variant == "None" else ex.call_callable(f, [o.fields[0]])
+
+
+@summary("Option::and_then")
+def _and_then(ex, c):
+    o, f = c.args
+    return NONE() if o.variant == "None" else ex.call_callable(f, [o.fields[0]])
+
+
+@summary("Option::filter")
+def _opt_filter(ex, c):
+    o, f = c.args
+    if o.variant == "None":
+        return o
+    r = ex.call_callable(f, [Ref(Cell(o.fields[0]))])
+    return o if ex.branch(r.t) else NONE()
+
+
+@summary("<* as Iterator>::find")
+def _it_find(ex, c):
+    it = deref(ex, c.args[0])
+    f = c.args[1]
+    for x in list(it.items):
+        r = ex.call_callable(f, [Ref(Cell(x))])
+        if ex.branch(r.t):
+            return some(x)
+    return NONE()
+
+
+@summary("Vec::retain")
+def _retain(ex, c):
+    base = base_seq_ref(ex, c.args[0])
+    v = ex.load(base)
+    f = c.args[1]
+    keep = []
+    for i, x in enumerate(list(v.items)):
+        r = ex.call_callable(f, [Ref(base.cell, base.path + (("i", i),))])
+        if ex.branch(r.t):
+            keep.append(x)
+    v.items[:] = keep
+    return UNIT
+
+
+@summary("core::slice::split_first")
+def _split_first(ex, c):
+    r = c.args[0]
+    base = base_seq_ref(ex, r)
+    seq = ex.load(base)
+    if not seq.items:
+        return NONE()
+    return some(Tup([Ref(base.cell, base.path + (("i", 0),)), Ref(Cell(Seq(seq.items[1:], "slice")))]))
+
+
+@summary("Vec::shrink_to_fit", "Vec::reserve", "Vec::with_capacity")
+def _vec_noop(ex, c):
+    if c.name.endswith("with_capacity"):
+        return Seq([])
+    return UNIT
+
+
+@summary("core::fmt::rt::Argument::new_lower_hex", "core::fmt::rt::Argument::new_upper_hex")
+def _fmt_hex(ex, c):
+    return Opaque("fmt::Argument")
+
+
+@summary("panic_fmt")
+def _panic_fmt(ex, c):
+    raise Panic("panic!()")
+
+
+@summary("<String as PartialEq>::eq", "<str as PartialEq>::eq")
+def _str_eq(ex, c):
+    a, b = deref(ex, c.args[0]), deref(ex, c.args[1])
+    if a.text is not None and b.text is not None:
+        return Bool(a.text == b.text)
+    raise Unsupported("string equality on symbolic text")
+
+
+@summary("Duration::is_zero")
+def _dur_is_zero(ex, c):
+    d = deref(ex, c.args[0])
+    return Bool(z3.And(d.fields[0].t == 0, d.fields[1].t == 0))
+
+
+@summary("Duration::as_millis")
+def _dur_as_millis(ex, c):
+    d = deref(ex, c.args[0])
+    return BV(z3.ZeroExt(64, d.fields[0].t) * 1000 + z3.ZeroExt(96, z3.UDiv(d.fields[1].t, z3.BitVecVal(1000000, 32))))
